@@ -21,6 +21,7 @@ mod c15;
 mod c16;
 mod c06;
 mod c07;
+mod c13;
 
 pub struct Out {
     pub cases: BufWriter<File>,
@@ -96,6 +97,7 @@ fn main() {
                 "C16" => c16::gen(seed, n, &mut out),
                 "C06" => c06::gen(seed, n, &mut out),
                 "C07" => c07::gen(seed, n, &mut out),
+                "C13" => c13::gen(seed, n, &mut out),
                 "C03" => c03::gen(seed, n, &mut out),
                 "C04" => c04::gen(seed, n, &mut out),
                 "C05csr" => c05::gen_csr(seed, n, &mut out),
